@@ -1,0 +1,38 @@
+//go:build verif
+// +build verif
+
+package drivers
+
+import (
+	"fmt"
+	"reflect"
+	"strings"
+)
+
+// Verification hooks (build tag "verif" only; add-only file).  They let the verification harness explore the
+// product of this byte reader and its TLA+ model to closure: a snapshot of all state and a copy of the reader.
+
+// VerifState returns a snapshot of the complete internal state of the reader: every field that is not a
+// callback, found by reflection (so that fields added later are part of the snapshot too).
+func (r *Reader) VerifState() string {
+	var sb strings.Builder
+	v := reflect.ValueOf(r).Elem()
+	for i := 0; i < v.NumField(); i++ {
+		f := v.Field(i)
+		if f.Kind() == reflect.Func {
+			continue
+		}
+		fmt.Fprintf(&sb, "%s=%v;", v.Type().Field(i).Name, f)
+	}
+	return sb.String()
+}
+
+// VerifClone returns an independent copy of the reader that reports to onMsg.
+func (r *Reader) VerifClone(onMsg func([]byte, int32)) *Reader {
+	c := *r
+	c.OnMsg = onMsg
+	if r.sysexBf != nil {
+		c.sysexBf = append([]byte(nil), r.sysexBf...)
+	}
+	return &c
+}
